@@ -26,6 +26,8 @@ Known-finding triggers (never in the main stream; one dedicated sub-stream each;
   vector-dimension-bare-rhs  `zn(1:n) = zn`: whole-array reference on the RHS of a section assignment over the dimension
                         (resolve_vector_dimension with derive_qualified_ranges=False)
   flatten-section       section of a multi-dimensional array (flatten_arrays)
+  nested-array-subscript  array element inside the subscript of another array reference, `a(idx(3))` (index mode:
+                        normalize_array_shape_and_access / flatten_arrays do not rewrite the inner reference)
 Repaired in /repo (now part of the main stream; their old replays are `fixed:` regressions):
   inquiry-on-array (size/lbound/ubound(array) on the RHS of a section assignment; b321ef2),
   normalize-stride-dropped (strided section of an array with lower bound /= 1; 17cfdab)
@@ -40,7 +42,7 @@ from . import gen as B
 from .gen_assoc import small_entry, checksum_epilogue, kernel_of, copy_case, mentioned_names
 
 HAZARDS = ['forward-overlap', 'stride-mismatch', 'enclosing-loop-range', 'where-ranges', 'where-reduction',
-           'half-open-range', 'bound-inquiry', 'vector-dimension-bare-rhs', 'flatten-section']
+           'half-open-range', 'bound-inquiry', 'vector-dimension-bare-rhs', 'flatten-section', 'nested-array-subscript']
 VECTOR_HAZARDS = HAZARDS[:8]
 REDUCTIONS = ('sum', 'minval', 'maxval')
 
@@ -748,7 +750,36 @@ def hazard_stmts(g, env, s, tag):
         (lb1, ub1), (lb2, ub2) = s.dims[name]
         spec = [rdim(lb1, lb1 + g.i(1, ub1 - lb1), 1), sdim(lit(lb2 + 1), lb2 + 1)]
         return [['assign', sec_expr(name, spec), B.expr_of(s.gq(g), env, env.vars[name]['type'], 1)]]
+    if tag == 'nested-array-subscript':
+        # zb(k) = za(lbA + modulo(za(lbA + j), 5)): the inner reference keeps its old (unshifted) subscript; lbA /= 1 here
+        lbA = s.dims['za'][0][0]
+        inner = ['d', [['za', [lit(lbA + g.i(1, 3))]]]]
+        outer = ['d', [['za', [['b', '+', lit(lbA), ['f', 'modulo', [inner, ['i', 5]], {}]]]]]]
+        return [['assign', ['d', [['zb', [lit(g.i(1, 6))]]]], outer]]
     raise ValueError(tag)
+
+
+def strip_nested_refs(x, types, hits, inside=False):
+    """
+    Replace array element references that occur inside the subscripts of another array reference by a literal of
+    their type, in place (`za(1 + modulo(zb(3), 5))` -> `za(1 + modulo(1, 5))`; generated subscripts stay in bounds
+    because they are literals, loop variables or `lb + modulo(e, extent)`). Nested references are the trigger of the
+    known finding 'nested-array-subscript' of the index-normalising entry points.
+    """
+    if not isinstance(x, list):
+        return x
+    if x and x[0] == 'd' and len(x) == 2 and isinstance(x[1], list):
+        name, subs = x[1][0][0], x[1][0][1]
+        if subs and inside:
+            hits.append(name)
+            t = types.get(name, 'int')
+            return ['i', 1] if t == 'int' else (['r', '1.0'] if t == 'real' else ['l', True])
+        if subs:
+            x[1][0][1] = [strip_nested_refs(y, types, hits, True) for y in subs]
+        return x
+    for k, y in enumerate(x):
+        x[k] = strip_nested_refs(y, types, hits, inside)
+    return x
 
 
 def nonzero_weights(epi):
@@ -776,6 +807,8 @@ def gen_xforms(g, mode, hazard, nextra=4):
         return [{'entry': 'resolve_vector_notation'}]
     if hazard == 'flatten-section':
         return [{'entry': 'normalize_array_shape_and_access+flatten_arrays', 'order': 'F'}]
+    if hazard == 'nested-array-subscript':
+        return [{'entry': 'normalize_array_shape_and_access'}]
     # several variants per generated (and compiled) original: the first entry always, plus a drawn subset of the others
     if mode == 'vector':
         first = {'entry': 'resolve_vector_notation'}
@@ -818,6 +851,9 @@ def cases(draw, hazard=None, nvec=4, minimal=False):
     s.T = T
     s.gq = lambda gg: B.G(gg.draw, dict(PROFILE, reductions=(mode == 'vector')))
     lbA, lbC, lbM, lbL, lbK = (g.pick([1, 0, 2, -1]), g.pick([1, 0, 2]), g.pick([1, 0, 2]), g.pick([0, 1, 2, -1]), g.pick([1, 0, 2]))
+    if hazard == 'nested-array-subscript':
+        T, O, lbA = 'int', 'real', g.pick([0, 2])
+        s.T = T
     arr_decls = [(T, [[lbA, lbA + 4]], 'inout'), (T, [[1, 6]], 'inout'), (T, [[lbC, lbC + 4]], 'in'),
                  (T, [[1, 'n']], 'inout'), (T, [[lbM, lbM + 2], [1, 4]], 'inout'), (O, [[1, 4]], 'inout')]
     names = ['za', 'zb', 'zc', 'zn', 'zm', 'zo']
@@ -870,6 +906,13 @@ def cases(draw, hazard=None, nvec=4, minimal=False):
         body = body[:pos] + hz_stmts + body[pos:]
         groups = groups[:cut] + [len(hz_stmts)] + groups[cut:]
         s.ncertain += 1
+    if mode == 'index' and hazard != 'nested-array-subscript':
+        hits = []
+        for r in subs_r:
+            strip_nested_refs(r['body'], {d['name']: d['type'] for d in r['decls']}, hits)
+        strip_nested_refs(body, {k: v['type'] for k, v in env.vars.items()}, hits)
+        if hits:
+            s.avoided.append('nested-array-subscript')
     if s.bare_rhs_1n and not hazard:
         for xf in xforms:
             if xf['entry'] == 'resolve_vector_dimension' and not xf.get('derive_qualified_ranges'):
